@@ -299,7 +299,9 @@ def _fallback(rng, printable, target):
 def gen_program(rng, dialect, nlines=None, equal_runs=True):
     """Returns list of (lineno, payload)."""
     if nlines is None:
-        nlines = rng.weighted([(1, 0), (2, 1), (5, rng.randint(2, 8)), (3, rng.randint(5, 40)), (1, rng.randint(30, 120))])
+        nlines = rng.weighted([(1, 0), (2, 1), (5, rng.randint(2, 8)), (3, rng.randint(5, 40)), (1, rng.randint(30, 120)),
+                               # line counts around the powers of two a narrow counter would wrap at
+                               (1, rng.choice([255, 256, 256, 257, 511, 512, 513, 768, 1024]))])
     be = is_big_endian(dialect)
     maxno = 65279 if be else 65535
     lines = []
